@@ -169,7 +169,13 @@ class BaseColumnType(object):
     except Exception as e:
       # If conversion failed, return a string to serve as alttext.
       try:
-        return str(value_to_convert)
+        text = str(value_to_convert)
+        try:
+          # If the text itself is convertible (e.g. text of an AltText, or of a huge integer for a
+          # Numeric), use that, so that converting the result again wouldn't change it.
+          return self.do_convert(text)
+        except Exception:
+          return text
       except Exception:
         # If converting to string failed, we should still produce something.
         return objtypes.safe_repr(value_to_convert)
